@@ -1109,3 +1109,44 @@ func builderPointerKept(p ssa.Value) []ssa.Instruction {
 	}
 	return out
 }
+
+// OPTIONS-OWNED: the compile options a node was given (graphCompileOptions, kept in its nodeInfo for every later
+// Compile) are written only by the option functions themselves (func(*graphCompileOptions) literals), by the
+// constructor, or on a fresh per-compile object. A Compile that writes into a node's stored options changes what the
+// nested graph is — for this parent, for every other parent, and for every later Compile.
+func compileOptionsOwned(w *World, r *Report, rule string) {
+	ot := w.Named("compose", "graphCompileOptions")
+	n := 0
+	exceptions := map[string]string{
+		"(*compose.graphNode).beforeChildGraphCompile callbacks": "appends the sub-graph info collector when the parent is compiled with compile callbacks: an observer, it does not change what the nested graph compiles to",
+	}
+	for _, fn := range w.RepoFuncs("compose") {
+		for _, fw := range fieldWrites(fn) {
+			if fw.owner != ot {
+				continue
+			}
+			n++
+			construct := fmt.Sprintf("%s writes graphCompileOptions.%s", w.fname(fn), fw.field.Name())
+			// an option function: func(*graphCompileOptions) with the object as its parameter
+			isOptFn := false
+			if sig := fn.Signature; sig.Params().Len() == 1 && sig.Results().Len() == 0 {
+				if pt, ok := sig.Params().At(0).Type().(*types.Pointer); ok && namedOf(pt.Elem()) == ot {
+					isOptFn = paramRoot(fw.base, 0) == fn.Params[0]
+				}
+			}
+			switch {
+			case isOptFn:
+				r.OK(rule, construct, fw.in.Pos(), "an option function writing the options object it was handed")
+			case freshBase(fw.base, 0):
+				r.OK(rule, construct, fw.in.Pos(), "a fresh options object (constructor / per-compile copy)")
+			case exceptions[w.fname(fn)+" "+fw.field.Name()] != "":
+				r.Except(rule, construct, fw.in.Pos(), exceptions[w.fname(fn)+" "+fw.field.Name()])
+			default:
+				r.Fail(rule, construct, fw.in.Pos(), "the stored compile options of a node are rewritten outside the option functions: a nested graph no longer compiles to what it was declared as — e.g. it inherits the parent's trigger mode (a graph with uneven paths returns a different result inside an all-predecessor parent, a nested loop no longer compiles), and the inherited value sticks for every later Compile and every other parent")
+			}
+		}
+	}
+	if n < 6 {
+		undecidedf("%s: only %d writes of graphCompileOptions fields found", rule, n)
+	}
+}
